@@ -360,6 +360,66 @@ Section ExchangeFacts.
     - intro H. destruct (IH H) as [Hi [d' [Hin Hp]]]. split; [exact Hi|]. exists d'. split; [right; exact Hin|exact Hp].
   Qed.
 
+  (* ---- with a clock: the deadline is fixed when the request is written ---- *)
+  Lemma arrived_before_app (deadline : N) (a b : list (N * bytes)) :
+    arrived_before deadline (a ++ b) = arrived_before deadline a ++ arrived_before deadline b.
+  Proof. unfold arrived_before. rewrite filter_app, map_app. reflexivity. Qed.
+
+  Lemma arrived_before_late (deadline : N) (late : list (N * bytes)) :
+    Forall (fun a => deadline <= fst a) late -> arrived_before deadline late = [].
+  Proof.
+    intros Hl. unfold arrived_before. induction Hl as [|a l Ha _ IH]; [reflexivity|].
+    cbn [filter]. destruct (N.ltb_spec (fst a) deadline) as [Hlt|Hge]; [lia|exact IH].
+  Qed.
+
+  Lemma arrived_before_foreign (bufsize : nat) (qid deadline : N) (arr : list (N * bytes)) :
+    Forall (fun a => fst a < deadline -> foreign bufsize qid (snd a)) arr ->
+    Forall (foreign bufsize qid) (arrived_before deadline arr).
+  Proof.
+    intros Hf. unfold arrived_before. induction Hf as [|a l Ha _ IH]; [constructor|].
+    cbn [filter]. destruct (N.ltb_spec (fst a) deadline) as [Hlt|Hge].
+    - cbn [map]. constructor; [exact (Ha Hlt)|exact IH].
+    - exact IH.
+  Qed.
+
+  (* however many foreign replies arrive before the deadline and however often,
+     and whatever arrives at or after it (the matching reply included), the
+     exchange ends with the deadline error *)
+  Lemma exchange_dgram_timed_timeout (bufsize : nat) (qid deadline : N) (arr : list (N * bytes)) :
+    Forall (fun a => fst a < deadline -> foreign bufsize qid (snd a)) arr ->
+    exchange_dgram_timed decodes bufsize qid deadline arr = Err "timeout".
+  Proof.
+    intros Hf. unfold exchange_dgram_timed. apply exchange_dgram_timeout.
+    apply arrived_before_foreign. exact Hf.
+  Qed.
+
+  (* the matching reply that arrives before the deadline is returned *)
+  Lemma exchange_dgram_timed_reply (bufsize : nat) (qid deadline : N) (fs : list (N * bytes))
+        (t : N) (r : bytes) (later : list (N * bytes)) :
+    Forall (fun a => fst a < deadline -> foreign bufsize qid (snd a)) fs ->
+    t < deadline ->
+    (headerSize <= length (firstn bufsize r))%nat -> decodes (firstn bufsize r) = true ->
+    msg_id (firstn bufsize r) = qid ->
+    exchange_dgram_timed decodes bufsize qid deadline (fs ++ (t, r) :: later) = Ok (firstn bufsize r).
+  Proof.
+    intros Hf Ht Hh Hd Hid. unfold exchange_dgram_timed.
+    rewrite arrived_before_app.
+    assert (E : arrived_before deadline ((t, r) :: later) = r :: arrived_before deadline later).
+    { unfold arrived_before. cbn [filter fst]. apply N.ltb_lt in Ht. rewrite Ht. reflexivity. }
+    rewrite E. apply exchange_dgram_skips; [apply arrived_before_foreign; exact Hf|exact Hh|exact Hd|exact Hid].
+  Qed.
+
+  (* nothing that arrives at or after the deadline has any influence *)
+  Lemma exchange_dgram_timed_ignores_late (bufsize : nat) (qid deadline : N)
+        (arr late : list (N * bytes)) :
+    Forall (fun a => deadline <= fst a) late ->
+    exchange_dgram_timed decodes bufsize qid deadline (arr ++ late) =
+    exchange_dgram_timed decodes bufsize qid deadline arr.
+  Proof.
+    intros Hl. unfold exchange_dgram_timed.
+    rewrite arrived_before_app, (arrived_before_late deadline late Hl), app_nil_r. reflexivity.
+  Qed.
+
   Lemma exchange_stream_sound (qid : N) (cs : list bytes) (p : bytes) :
     exchange_stream decodes qid cs = Ok p -> msg_id p = qid.
   Proof.
@@ -409,3 +469,45 @@ Proof. vm_compute. reflexivity. Qed.
 
 Example ex_maxsize_premise : lenN (repeat 7 (N.to_nat 65535)) <= 65535.
 Proof. vm_compute. discriminate. Qed.
+
+(* the deadline is the earlier of the client's timeout and the context's deadline *)
+Lemma exchange_deadline_earliest (timeout read_timeout c : N) :
+  exchange_deadline timeout read_timeout (Some c) <= client_read_timeout timeout read_timeout /\
+  exchange_deadline timeout read_timeout (Some c) <= c /\
+  (exchange_deadline timeout read_timeout (Some c) = client_read_timeout timeout read_timeout \/
+   exchange_deadline timeout read_timeout (Some c) = c) /\
+  exchange_deadline timeout read_timeout None = client_read_timeout timeout read_timeout.
+Proof. unfold exchange_deadline. repeat split; lia. Qed.
+
+Lemma client_read_timeout_cases (timeout read_timeout : N) :
+  (timeout <> 0 -> client_read_timeout timeout read_timeout = timeout) /\
+  (timeout = 0 -> read_timeout <> 0 -> client_read_timeout timeout read_timeout = read_timeout) /\
+  (timeout = 0 -> read_timeout = 0 -> client_read_timeout timeout read_timeout = 2000000).
+Proof.
+  unfold client_read_timeout, dns_timeout_us. repeat split.
+  - intro H. apply N.eqb_neq in H. rewrite H. reflexivity.
+  - intros -> H. apply N.eqb_neq in H. cbn. rewrite H. reflexivity.
+  - intros -> ->. reflexivity.
+Qed.
+
+(* a foreign reply every 5 ms for ever, deadline 300 ms (context) against a
+   client timeout of 2 s, the matching reply at 900 ms: deadline error; the
+   same with the matching reply at 7 ms: returned *)
+Example ex_timed :
+  let arr := [(0, ex_m2); (5000, ex_m2); (10000, ex_m2); (295000, ex_m2); (300000, ex_m2); (900000, ex_m1); (905000, ex_m2)] in
+  exchange_deadline 0 0 (Some 300000) = 300000 /\
+  exchange_dgram_timed (fun _ => true) 512 4660 (exchange_deadline 0 0 (Some 300000)) arr = Err "timeout" /\
+  exchange_dgram_timed (fun _ => true) 512 4660 (exchange_deadline 0 0 (Some 300000))
+                       ((0, ex_m2) :: (5000, ex_m2) :: (7000, ex_m1) :: arr) = Ok ex_m1.
+Proof. repeat split; reflexivity. Qed.
+
+Example ex_timed_premise :
+  Forall (fun a => fst a < 300000 -> foreign (fun _ => true) 512 4660 (snd a))
+         [(0, ex_m2); (295000, ex_m2); (300000, ex_m1); (900000, ex_m1)].
+Proof.
+  constructor; [intros _; exact ex_foreign|].
+  constructor; [intros _; exact ex_foreign|].
+  constructor; [cbn [fst]; intro H; exfalso; revert H; apply N.lt_irrefl|].
+  constructor; [cbn [fst]; intro H; exfalso; revert H; apply N.le_ngt; discriminate|].
+  constructor.
+Qed.
